@@ -135,6 +135,18 @@ def targeted_programs(dev):
                 ED("delslice", i=1, j=3), {"op": "str"}, some[5], ED("insert", i=0, text="B;"), {"op": "exit", "pre": "longer"},
                 ED("delslice", i=0, j=50), {"op": "str"}, {"op": "exit", "pre": "longer"}]
     progs.append(h)
+    # a path without the extension given to the constructor: leaving the block refuses it like save() does
+    for fname in ("worklist.txt", "worklist", "run.txt"):
+        h = _hdr(f"files/constructor-path-{fname}", dev)
+        h["wl"]["fname"] = fname
+        h["ops"] = [{"op": "enter"}, some[1], some[3], {"op": "exit", "ext": "none"}, {"op": "str"}, some[2], {"op": "exit", "ext": "none"}]
+        progs.append(h)
+    # the eight Latin-1 characters that Latin-9 (ISO 8859-15) does not have, and the rest of the upper half
+    h = _hdr("files/latin1-not-latin9", dev)
+    h["ops"] = [{"op": "enter"}, E("comment", text="\u00a4 \u00a6 \u00a8 \u00b4 \u00b8 \u00bc \u00bd \u00be"), E("comment", text="dilute \u00bd, then \u00be"),
+                E("comment", text="".join(chr(c) for c in range(161, 200))), E("comment", text="".join(chr(c) for c in range(200, 256))),
+                {"op": "str"}, {"op": "save", "pre": "longer"}, {"op": "exit", "pre": "shorter"}]
+    progs.append(h)
     # a worklist without a path: leaving the block writes nothing
     h = _hdr("files/nopath", dev, file=False)
     h["ops"] = [{"op": "enter"}, some[1], {"op": "exit"}, {"op": "str"}, {"op": "save"}]
